@@ -427,10 +427,53 @@ class Exec:
 
     def st_If(self, s, env, fr):
         c = truth(self.eval(s.test, env, fr))
+        if not isinstance(c, bool) and self._if_convert_dict_store(s, c, env, fr):
+            return
         if self.decide(c):
             self.exec_block(s.body, env, fr)
         else:
             self.exec_block(s.orelse, env, fr)
+
+    def _if_convert_dict_store(self, s, c, env, fr):
+        """`if cond: d["key"] = <literal>` with a symbolic cond and no else: a conditional entry of a symbolic mapping instead of
+        two paths (keeps encoders that set a dozen optional attributes at a few paths instead of thousands)"""
+        if s.orelse or len(s.body) != 1 or not isinstance(s.body[0], ast.Assign) or len(s.body[0].targets) != 1:
+            return False
+        t = s.body[0].targets[0]
+        if not (isinstance(t, ast.Subscript) and isinstance(t.value, ast.Name) and t.value.id in env):
+            return False
+        d = env[t.value.id]
+        if not isinstance(d, (dict, SymDict)) or _has_call(s.body[0].value):
+            return False
+        if isinstance(d, SymDict) and d.ghost.get("owner") not in (None, "fresh", "self"):
+            return False   # stores into foreign mappings go through the frame obligation on the ordinary path
+        try:
+            key = self.eval(t.slice, env, fr)
+            val = self.eval(s.body[0].value, env, fr)
+        except Unsupported:
+            return False
+        if not isinstance(key, str) or not isinstance(val, (str, int, bool)):
+            return False
+        if isinstance(d, dict):
+            if not all(isinstance(k, str) for k in d):
+                return False
+            sd = SymDict(t.value.id, {k: [True, v] for k, v in d.items()}, closed=True)
+            # replace the python dict by the symbolic mapping everywhere it is bound in this frame
+            for k2, v2 in list(env.items()):
+                if v2 is d:
+                    env[k2] = sd
+            d = sd
+        cz = to_z3(c, "bool")
+        if key in d.entries:
+            p0, v0 = d.entries[key]
+            if not (isinstance(v0, (str, int, bool)) and v0 == val):
+                return False
+            d.entries[key] = [or_vals([p0, cz]), val]
+        else:
+            if not d.closed:
+                return False
+            d.entries[key] = [cz, val]
+        return True
 
     def st_Continue(self, s, env, fr):
         raise _Continue()
@@ -813,6 +856,11 @@ class Exec:
                 if cm.is_property:
                     return self.call_function(cm, [base], {}, n, env, fr)
                 return BoundMethod(base, attr)
+            if self.methods.get((base.cls, "call:" + attr)) is not None:
+                return BoundMethod(base, attr)
+            h2 = self.methods.get((base.cls, attr))
+            if h2 is not None:
+                return h2(self, base, n, env, fr)
             raise PathRaise("AttributeError", n)
         if isinstance(base, Opaque):
             from .objmodels import opaque_attr
@@ -1076,7 +1124,11 @@ class Exec:
             if isinstance(item, (str, int)):
                 return item in container
             return or_vals([eq_val(item, x) for x in container])
-        if isinstance(container, Obj) and container.cls in ("Dataset", "Grid"):
+        if isinstance(container, Obj) and container.cls == "Dataset":
+            if not isinstance(item, str):
+                raise Unsupported("membership of a non-literal name in a dataset")
+            return container.fields["vars"].present(item)
+        if isinstance(container, Obj) and container.cls in ("Grid",):
             raise Unsupported("membership on object")
         raise Unsupported(f"`in` on {type(container).__name__} at {loc_of(fr, node)}")
 
@@ -1113,6 +1165,22 @@ class Exec:
             if it[0] == "indexed":
                 return ListMap(it[2], "int")
             return ListMap(len(it[1]), "int")
+        # {k: v for k, v in M.items() if k not in <literal names>} on a symbolic mapping: M without those keys
+        if (isinstance(g.iter, ast.Call) and isinstance(g.iter.func, ast.Attribute) and g.iter.func.attr == "items"
+                and isinstance(g.target, ast.Tuple) and len(g.target.elts) == 2 and len(g.ifs) == 1
+                and isinstance(n.key, ast.Name) and isinstance(n.value, ast.Name)
+                and n.key.id == g.target.elts[0].id and n.value.id == g.target.elts[1].id):
+            m = self.eval(g.iter.func.value, env, fr)
+            cond = g.ifs[0]
+            if isinstance(m, SymDict) and isinstance(cond, ast.Compare) and len(cond.ops) == 1 and isinstance(cond.ops[0], ast.NotIn) \
+                    and isinstance(cond.left, ast.Name) and cond.left.id == n.key.id:
+                drop = self.eval(cond.comparators[0], env, fr)
+                if isinstance(drop, (tuple, list, set)) and all(isinstance(x, str) for x in drop):
+                    r = V.clone(m, {})
+                    r.ghost = {"owner": "fresh"}
+                    for k in drop:
+                        r.entries[k] = [False, V.UNSET]
+                    return r
         it = self.eval_iter(g.iter, env, fr)
         if it[0] != "concrete":
             raise Unsupported("dict comprehension over a symbolic iterable")
@@ -1194,6 +1262,8 @@ class Exec:
         h = self.methods.get((type(base).__name__, "__getitem__"))
         if h is not None:
             return h(self, base, n, env, fr)(idx)
+        if isinstance(base, Obj) and base.cls == "Dataset":
+            return self.load_subscript(base.fields["vars"], idx, n, env, fr)
         if isinstance(base, Obj):
             cm = self.class_member(base.cls, "__getitem__")
             if cm is not None:
@@ -1433,6 +1503,8 @@ class Exec:
             return self.store_small(base, idx, v, node)
         if isinstance(base, Arr):
             return self.store_arr(base, idx, v, node)
+        if isinstance(base, Obj) and base.cls == "Dataset":
+            return self.store_subscript(base.fields["vars"], idx, v, node, env, fr)
         if isinstance(base, _ListMapRow):
             raise Unsupported("store into list row")
         h = self.methods.get((type(base).__name__, "__setitem__"))
